@@ -468,6 +468,10 @@ pub fn run(driver: &Driver, seed: u64, thorough: bool, replay: Option<&serde_jso
     rep.streams.push(stream_kw(driver, &ctx, seed, if t { 100 } else { 5 }, true));
     rep.streams.push(stream_spec(driver, seed, if t { 100 } else { 6 }));
     rep.streams.push(stream_inline(driver, &ctx, seed, if t { 200_000 } else { 3000 }));
+    rep.streams.push(stream_bser(driver, &ctx, seed, if t { 100_000 } else { 2500 }, false));
+    rep.streams.push(stream_bser(driver, &ctx, seed, if t { 10_000 } else { 300 }, true));
+    rep.streams.push(stream_bparse(driver, &ctx, seed, if t { 100_000 } else { 2000 }, false));
+    rep.streams.push(stream_bparse(driver, &ctx, seed, if t { 30_000 } else { 600 }, true));
     rep.oracles.push(oracle_roundtrip(&ctx, seed, 0, if t { 300_000 } else { 4000 }, true));
     rep.oracles.push(oracle_table(&ctx, seed, if t { 300 } else { 8 }, 0, if t { 100_000 } else { 2000 }, false));
     rep.oracles.push(oracle_leak(&ctx, seed, 0, if t { 100_000 } else { 2000 }));
